@@ -691,6 +691,21 @@ func aliasReflective(w *World) {
 		}
 		n := m.Name
 		ro := strings.HasPrefix(n, "Get") || strings.HasPrefix(n, "List") || strings.HasPrefix(n, "Describe") || strings.HasPrefix(n, "Pull") || strings.HasPrefix(n, "Find") || strings.HasPrefix(n, "Has")
+		if !ro && (m.Type.NumIn() == 1 || (m.Type.NumIn() == 2 && m.Type.IsVariadic() && m.Type.In(1).Elem() == reflect.TypeOf((*resource.ReadOption)(nil)).Elem())) {
+			// getters by shape (ModeValues(), Modes(), ActiveMode(...ReadOption)): nothing but read options goes in, messages and
+			// no error come out
+			msgOut, errOut := false, false
+			for o := 0; o < m.Type.NumOut(); o++ {
+				ot := m.Type.Out(o)
+				if ot.Implements(errorType) {
+					errOut = true
+				}
+				if ot.Implements(protoMessageType) || (ot.Kind() == reflect.Slice && ot.Elem().Implements(protoMessageType)) {
+					msgOut = true
+				}
+			}
+			ro = msgOut && !errOut
+		}
 		ms = append(ms, meth{m: m, readOnly: ro, recv: obj})
 	}
 	// the model's server (the RPC handlers have logic of their own: relative updates, defaults, conversions): its unary
@@ -789,10 +804,11 @@ func aliasReflective(w *World) {
 				collectMsgs(r, 3, &msgs)
 			}
 			for _, m := range msgs {
-				harvestStrings(m.ProtoReflect(), &p.dict, 3)
+				harvestStrings(m.ProtoReflect(), &p.dict, &p.keys, 3)
 			}
 		}
 		sort.Strings(p.dict)
+		sort.Strings(p.keys)
 	}
 	nsub := 0
 	n := 2 + t.Choose(8)
